@@ -324,6 +324,24 @@ static Val loadVal(State &s, const Val &p, unsigned nbytes, unsigned w) {
     if (!r.symOff) return loadBytes(s, r.o->base + r.off, nbytes, w);
     Obj *o = r.o; z3::expr offE = r.offE.ex();
     bool allc = !o->s; if (o->s) { allc = true; for (auto &x : *o->s) if (x) { allc = false; break; } }
+    if (allc && o->size() <= 4096 && o->size() >= nbytes) {
+        // few distinct values (e.g. a 0/1 membership table): value-grouped ite over offset intervals, no array axioms and no fork
+        std::map<std::vector<uint8_t>, std::vector<uint64_t>> groups; bool few = true;
+        for (uint64_t off = 0; off + nbytes <= o->size(); off++) { groups[std::vector<uint8_t>(o->b.begin() + off, o->b.begin() + off + nbytes)].push_back(off); if (groups.size() > 4) { few = false; break; } }
+        if (few) {
+            const std::vector<uint8_t> *dflt = nullptr; size_t best = 0;
+            for (auto &g : groups) if (g.second.size() > best) { best = g.second.size(); dflt = &g.first; }
+            z3::expr res = loadBytes(s, o->base + groups[*dflt][0], nbytes, w).bv();
+            for (auto &g : groups) {
+                if (&g.first == dflt) continue;
+                z3::expr c = Z.bool_val(false);
+                for (size_t i = 0; i < g.second.size();) { size_t j = i; while (j + 1 < g.second.size() && g.second[j + 1] == g.second[j] + 1) ++j;
+                    c = c || (i == j ? offE == Z.bv_val(g.second[i], 64) : (z3::uge(offE, Z.bv_val(g.second[i], 64)) && z3::ule(offE, Z.bv_val(g.second[j], 64)))); i = j + 1; }
+                res = z3::ite(c, loadBytes(s, o->base + g.second[0], nbytes, w).bv(), res);
+            }
+            return Val::E(res);
+        }
+    }
     if (allc && o->size() <= 4096) {
         uint64_t h = 1469598103934665603ULL ^ o->size(); for (uint8_t c : o->b) { h ^= c; h *= 1099511628211ULL; }
         auto &arr = tableArrays[h];
